@@ -240,7 +240,8 @@ pub fn run(ctx: &Ctx) {
     ctx.rec.assume("retention clause observed through PMTiles::verif_store_counts (cargo feature verif, read-only)");
     run_proptest(ctx, "duplication-patterns", PtCfg::new(ctx.lanes, ctx.tier.pick(1000, 8000)), || dup_strategy(ctx.tier.pick(60, 400), 80), check_dup);
     // very long runs (run lengths are 32-bit): around 2^16 and beyond, in memory and reader-backed
-    let longs: Vec<DupCase> = [65_535u32, 65_536, 70_000, 200_000]
+    let long_sizes: Vec<u32> = ctx.tier.pick(vec![65_535u32, 65_536, 70_000], vec![65_535, 65_536, 70_000, 200_000, 1_000_000]);
+    let longs: Vec<DupCase> = long_sizes
         .iter()
         .enumerate()
         .flat_map(|(k, n)| {
